@@ -430,7 +430,9 @@ pub(crate) fn recv_timeout_sync<T: Send>(
           match receiver.shared.try_recv_core() {
             Ok(item) => return Ok(item),
             Err(TryRecvError::Disconnected) => return Err(RecvErrorTimeout::Disconnected),
-            Err(TryRecvError::Empty) => unreachable!("state was finished but channel empty"),
+            // The wake only announced an item; another receiver may have taken it since.
+            // The deadline has passed and nothing is there: that is a timeout.
+            Err(TryRecvError::Empty) => return Err(RecvErrorTimeout::Timeout),
           }
         }
       }
